@@ -10,9 +10,9 @@ use std::collections::BTreeSet;
 
 pub static DEF: PropDef = PropDef {
     id: "C17",
-    rule: "regex ASTs (literal a/b/c/'.'/'+'/'?' (the last two ordinary in the basic syntaxes, written [+] [?] where they are operators), any-char '.', positive/negative bracket sets with ranges, concatenation, alternation, grouping, '*', '+', '?', intervals {m}, {m,}, {m,n} with n <= 3) of depth <= 5, rendered into each supported syntax using only the constructs that syntax documents (emacs: \\( \\) \\| * + ?; posix-basic / ed / sed: \\( \\) * \\{m,n\\}; grep: \\( \\) \\| * \\+ \\? \\{m,n\\}; posix-extended: ( ) | * + ? {m,n}), alternation branches also rendered in reversed order; subjects: strings generated FROM the AST (members), their proper prefixes and one-character extensions (the prefix/substring trap), one-character edits, and random strings over the same alphabet, all embedded as paths r/<subject> with the pattern prefixed by the literal r/. Oracle: an independent set-of-end-positions matcher over the AST deciding membership of the ENTIRE path (ASCII case folding for -iregex). tier A through the verif-hooks entry point: exhaustive over every AST of <= 4 (thorough 5) nodes on {a, b, .} x every subject of <= 4 symbols over {a, b} x every syntax x both case modes, then random; tier B end to end: find r [-regextype T] -regex|-iregex P -print0 on a directory whose files are named by the subjects; positional -regextype: the option placed before a parenthesised group, inside an earlier group, twice with different types. Non-trivial = the AST contains an alternation or a counted repetition (+, ?, interval), and the subject set contains a member, a non-member, and a proper prefix of a member that is itself a member of one alternative or a non-member. Distinct = distinct case JSON.",
+    rule: "regex ASTs (literal a/b/c/'.'/'+'/'?' (the last two ordinary in the basic syntaxes, written [+] [?] where they are operators), any-char '.', positive/negative bracket sets with ranges, concatenation, alternation, grouping, '*', '+', '?', intervals {m}, {m,}, {m,n} with n <= 3) of depth <= 5, rendered into each supported syntax using only the constructs that syntax documents (emacs: \\( \\) \\| * + ?; posix-basic / ed / sed: \\( \\) * \\{m,n\\}; grep: \\( \\) \\| * \\+ \\? \\{m,n\\}; posix-extended: ( ) | * + ? {m,n}), alternation branches also rendered in reversed order; subjects: strings generated FROM the AST (members), their proper prefixes and one-character extensions (the prefix/substring trap), one-character edits, random strings over the same alphabet, and (where the pattern has no '.' or negated set, the only constructs that could consume it) members followed or preceded by a newline and further text, all embedded as paths r/<subject> with the pattern prefixed by the literal r/. Oracle: an independent set-of-end-positions matcher over the AST deciding membership of the ENTIRE path (ASCII case folding for -iregex). tier A through the verif-hooks entry point: exhaustive over every AST of <= 4 (thorough 5) nodes on {a, b, .} x every subject of <= 4 symbols over {a, b} x every syntax x both case modes, then random; tier B end to end: find r [-regextype T] -regex|-iregex P -print0 on a directory whose files are named by the subjects; positional -regextype: the option placed before a parenthesised group, inside an earlier group, twice with different types. Non-trivial = the AST contains an alternation or a counted repetition (+, ?, interval), and the subject set contains a member, a non-member, and a proper prefix of a member that is itself a member of one alternative or a non-member. Distinct = distinct case JSON.",
     assumptions: &[
-        "back-references, anchors inside patterns, POSIX classes, case folding beyond ASCII and newlines in paths are not generated",
+        "back-references, anchors inside patterns, POSIX classes, case folding beyond ASCII are not generated; newlines in paths only for patterns without . and negated sets",
         "only constructs each syntax documents are rendered (posix-basic without \\+ \\? \\|)",
         "nested repetition is always rendered with an explicit group",
         "random patterns nest at most two unbounded repetitions and never repeat an operand that can match the empty string (patterns on which a backtracking engine hits its retry limit are outside this check; the exhaustive sub-run does contain small ones such as (a*)*)",
@@ -49,6 +49,16 @@ fn family(syntax: &str) -> u8 {
 }
 
 impl Re {
+    /// some construct could consume a newline ('.' and negated sets: whether they do differs between
+    /// the syntaxes and is not something the statement settles)
+    fn may_match_newline(&self) -> bool {
+        match self {
+            Re::Any | Re::Set(true, _) => true,
+            Re::Lit(_) | Re::Set(false, _) => false,
+            Re::Cat(v) | Re::Alt(v) => v.iter().any(|x| x.may_match_newline()),
+            Re::Star(x) | Re::Plus(x) | Re::Opt(x) | Re::Rep(x, _, _) => x.may_match_newline(),
+        }
+    }
     fn uses_alt_plus_opt(&self) -> bool {
         match self {
             Re::Alt(_) | Re::Plus(_) | Re::Opt(_) => true,
@@ -496,9 +506,20 @@ fn gen_subjects(g: &mut Gen, re: &Re) -> Vec<String> {
         let n = g.usize_in(0, 5);
         v.push((0..n).map(|_| g.pick(&['a', 'b', 'c', '.', '+', '?'])).collect());
     }
+    // a member followed by a newline and more: only a prefix of such a path is in the language (an
+    // end-of-line anchor would accept it); only where nothing in the pattern could consume the newline
+    if !re.may_match_newline() {
+        for m in members.iter().take(3) {
+            v.push(format!("{m}\n"));
+            v.push(format!("{m}\n{}", g.pick(&["a", "b", "\n", "a\nb"])));
+        }
+        if let Some(m) = members.first() {
+            v.push(format!("\n{m}"));
+        }
+    }
     v.sort();
     v.dedup();
-    v.truncate(40);
+    v.truncate(48);
     v
 }
 
